@@ -1931,6 +1931,9 @@ impl Typer {
                         tast::Ty::TRef {
                             elem: Box::new(elem_ty),
                         }
+                    } else if name.as_str() == "array_set" && args_tast.len() == 3 {
+                        // the result has the type (and the length) of the array argument
+                        args_tast[0].get_ty()
                     } else {
                         self.fresh_ty_var()
                     };
@@ -2026,6 +2029,9 @@ impl Typer {
                         tast::Ty::TRef {
                             elem: Box::new(elem_ty),
                         }
+                    } else if name.as_str() == "array_set" && args_tast.len() == 3 {
+                        // the result has the type (and the length) of the array argument
+                        args_tast[0].get_ty()
                     } else {
                         self.fresh_ty_var()
                     };
